@@ -36,6 +36,7 @@ const (
 	tyName
 	tyFunc
 	tyTuple
+	tyErr // Go `error`: nil ↦ none, fmt.Errorf("literal") ↦ some "literal"
 )
 
 type trParam struct {
@@ -60,6 +61,8 @@ type trTarget struct {
 	nameConsts []string // identifiers that are named constants (→ their name as a String)
 	autoNames  bool     // every identifier that is not a variable is a named constant
 	intConsts  map[string]int64
+	rangeBytes bool   // `for _, c := range <string>` reads bytes (sound when c is only compared with ASCII constants)
+	retLean    string // Lean type of the result (needed for loops with early return)
 	recFuel    bool   // self-recursive: emitted with an explicit fuel parameter (Nat.rec)
 	resTy      trTy   // result type of a recursive function
 	resLean    string // … and its Lean type, e.g. "Int → Int" for the function after fuel
@@ -75,7 +78,11 @@ type trCtx struct {
 	cur   int
 	self  string // name of the function (recursion)
 
-	inAbstract bool // inside the arguments of an abstracted function (float conversions allowed)
+	inAbstract bool                    // inside the arguments of an abstracted function (float conversions allowed)
+	loopRet    func(val string) string // inside a loop with early return: how `return val` is delivered
+
+	allowLoopReturn bool
+	strVars         map[string]bool // Go variables of type `string` (range yields runes)
 }
 
 var leanReserved = map[string]bool{"at": true, "end": true, "from": true, "have": true, "show": true, "then": true, "else": true,
